@@ -115,7 +115,7 @@ func c12Requests() []req {
 func init() {
 	register("c12", Def{
 		Rule: "every data-producing command (text parse/conv incl. inputs with > 100 AST nodes and failing classifications, write, write event/parse/conv, info attr/chord/key *, gen attr) x k repetitions " +
-			"(quick 8, thorough 40) spread over GOMAXPROCS 1/2/16, --debug on/off, input on stdin (pipe, slow pipe, `< file`) / as `-` / as FILE (regular, /dev/stdin, named pipe), user dictionary as file / named pipe, output on stdout / with -o (fresh, stale, or onto the input file itself) (thorough: also the -race build); a record is one request " +
+			"(quick 8, thorough 40) spread over GOMAXPROCS 1/2/16, --debug on/off, input on stdin (pipe, slow pipe, `< file`) / as `-` / as FILE, user dictionary as a file, output on stdout / with -o (fresh, or an existing longer file) (thorough: also the -race build); a record is one request " +
 			"class with the sha-256 of every run's output; distinct = distinct request classes",
 		Gen: func(c *Ctx) []Case {
 			cases := []Case{}
